@@ -1,9 +1,75 @@
+import OpusModel.SilkResamp
 import Driver.Util
-/-! Suite `silkresamp` (line protocol, DESIGN.md §4): stub registered in Driver/Main.lean; the owner fills in `handle`. -/
+/-! Suite `silkresamp` (property C03, slice SilkResamp): the SILK resampler, model `OpusModel/SilkResamp.lean`.
+
+   init <Fs_in> <Fs_out> <forEnc> <hard>     silk_resampler_init; hard = 1: library built with ENABLE_HARDENING /
+                                             ENABLE_ASSERTIONS (celt_assert aborts), 0: assertions are no-ops
+        → `<kernel> ret=<r> <state>` or `ABORT`
+   hist <Fs_in> <Fs_out> <forEnc> <lens> <samples>
+        init, then one silk_resampler call per entry of <lens> (comma list) on consecutive pieces of <samples>
+        → `<kernel> <cfg> | n=<written> out=<samples> <dyn> | …` (one group per call, <dyn> = sIIR, sFIR, delayBuf
+          after the call) or `ABORT` / `OOB`
+   <kernel> ∈ copy up2hq iirfir downfir18 downfir24 downfir36 rejected
+   <state> = <cfg> <dyn>;  <cfg> = fn= batch= inv= order= fracs= fsin= fsout= delay= coef=
+   sFIR is shown through the view the selected kernel uses (i16 for iirfir, i32 otherwise), all 36 elements. -/
 namespace Driver.SuiteSilkResamp
+open Opus Opus.SilkResamp Opus.Gen.SilkResampRom Driver
+
+def kernelName (c : Cfg) : String :=
+  if c.fn = useCopy then "copy" else if c.fn = useUp2HQ then "up2hq" else if c.fn = useIIRFIR then "iirfir"
+  else if c.fn = useDownFIR then s!"downfir{c.firOrder}" else "unknown"
+
+def cfgStr (c : Cfg) : String :=
+  s!"fn={c.fn} batch={c.batchSize} inv={c.invRatio} order={c.firOrder} fracs={c.firFracs} fsin={c.fsIn} fsout={c.fsOut} delay={c.inputDelay} coef={c.coefId}"
+
+def dynStr (S : RS) : String :=
+  s!"iir={intList S.sIIR.toList} fir={intList S.sFIR} dbuf={intList S.delayBuf}"
+
+def splitLens : List Nat → List Int → Option (List (List Int))
+  | [], [] => some []
+  | [], _ :: _ => none
+  | n :: ns, xs =>
+    if xs.length < n then none
+    else match splitLens ns (xs.drop n) with
+      | some r => some (xs.take n :: r)
+      | none => none
+
+/-- Calls one after the other, a group per call. -/
+def runShow (S : RS) : List (List Int) → String
+  | [] => ""
+  | xs :: rest =>
+    match resampler S xs with
+    | .ok r => s!" | n={r.2.length} out={intList r.2} {dynStr r.1}" ++ runShow r.1 rest
+    | .err e => " | " ++ errStr e
+    | .oob => " | OOB"
+    | .abort => " | ABORT"
 
 def handle (args : List String) : String :=
   match args with
+  | ["init", a, b, e, h] =>
+    match parseInt a, parseInt b, parseNat e, parseNat h with
+    | some a, some b, some e, some h =>
+      if e > 1 || h > 1 then "bad-op"
+      else if h = 1 then
+        match init a b (e = 1) with
+        | .ok S => s!"{kernelName S.cfg} ret=0 {cfgStr S.cfg} {dynStr S}"
+        | r => resStr (fun _ => "") r
+      else
+        match initRet a b (e = 1) with
+        | .ok (r, S) => s!"{if r = 0 then kernelName S.cfg else "rejected"} ret={r} {cfgStr S.cfg} {dynStr S}"
+        | r => resStr (fun _ => "") r
+    | _, _, _, _ => "bad-op"
+  | ["hist", a, b, e, lens, samples] =>
+    match parseInt a, parseInt b, parseNat e, parseNatList lens, parseIntList samples with
+    | some a, some b, some e, some lens, some xs =>
+      if e > 1 then "bad-op"
+      else match splitLens lens xs with
+        | none => "bad-op"
+        | some blocks =>
+          match init a b (e = 1) with
+          | .ok S => s!"{kernelName S.cfg} {cfgStr S.cfg}" ++ runShow S blocks
+          | r => resStr (fun _ => "") r
+    | _, _, _, _, _ => "bad-op"
   | _ => "bad-op"
 
 end Driver.SuiteSilkResamp
